@@ -5,7 +5,7 @@ is_ready() assertion); check-then-act: between the readiness decision and the en
 await, or the waker reserves the slot (updates a field that wait_readiness reads); cap-source: the
 argument of set_cap derives from the negotiated values (v5 server: min(max_send, peer Receive
 Maximum); v5 client: CONNACK receive_max; v3: max_send) on the accept path. The count at every
-instant for every interleaving is not decided. cap-source (continued, v5 server): every value that can reach set_cap - following copies and branch merges backwards - is `min(.., peer Receive Maximum)` (or the no-peer-limit branch). cap-source (continued, hand-written minimum): a definition that reaches set_cap is bounded when it is the peer's value itself, or when every path to the copy that carries it passes the None edge of the peer-limit test or the `other <= peer` side of a comparison with it.
+instant for every interleaving is not decided. cap-source (continued, v5 server): every value that can reach set_cap - following copies and branch merges backwards - is `min(.., peer Receive Maximum)` (or the no-peer-limit branch). cap-source (continued, hand-written minimum): a definition that reaches set_cap is bounded when it is the peer's value itself, or when every path to the copy that carries it passes the None edge of the peer-limit test or the `other <= peer` side of a comparison with it. cap-source (continued): set_cap stores the value it is given on every path (no constant reaches the cell).
 """
 from facts import *
 
